@@ -20,11 +20,42 @@ def project(ans, fields):
         if 'result' in fields:
             keep.append(parts[0])
         if 'trace' in fields:
-            keep.append(' | '.join(parts[1:]))
+            keep.append(' | '.join([coarse_trace(parts[1])] + parts[2:]) if len(parts) > 1 else '')
         return ' | '.join(keep)
     if ans.startswith('state '):
         return ans if 'state' in fields else 'state'
     return ans
+
+
+_VERB = {'sel': 'S', 'pag': 'S', 'fir': 'S', 'max': 'S', 'chk': 'S', 'get': 'S', 'ins': 'I', 'upd': 'U', 'hit': 'U', 'mis': 'U',
+         'del': 'D', 'set': 'U'}
+
+
+def coarse_trace(tr):
+    """What a micro-step trace is compared on: transaction boundaries, value-file operations (with
+    their file ids) and the KIND of each statement on the tables (select / insert / update / delete,
+    failed or not) in order — not the spelling of the SQL.  An equivalent re-spelling of a statement
+    (which the statement table does not know) then compares equal; a missing BEGIN, a file removed
+    before COMMIT, a statement moved out of its transaction or an extra write do not."""
+    out = []
+    for a in tr.split(','):
+        if not a:
+            continue
+        bang = a.endswith('!')
+        core = a[:-1] if bang else a
+        if core in ('BEGIN', 'BEGIN_BUSY', 'COMMIT', 'ROLLBACK') or core[:2] in ('FW', 'FR'):
+            out.append(a)
+            continue
+        if core == 'pageCount' or core.startswith('unk:PRAGMA'):
+            out.append('P')
+            continue
+        if core.startswith('unk:'):
+            w = core[4:].split('_', 1)[0].upper()
+            v = {'SELECT': 'S', 'INSERT': 'I', 'UPDATE': 'U', 'DELETE': 'D'}.get(w, '?' + w)
+        else:
+            v = _VERB.get(core[:3].lower(), '?' + core)
+        out.append(v + ('!' if bang else ''))
+    return ','.join(out)
 
 
 def diverge(impl_out, model_out, fields):
